@@ -1,0 +1,13 @@
+//go:build verif
+
+package iterator
+
+// VerifHook receives the names of the verification yield points of this
+// package. It is only compiled with the "verif" build tag.
+var VerifHook func(name string)
+
+func verifPoint(name string) {
+	if h := VerifHook; h != nil {
+		h(name)
+	}
+}
